@@ -80,6 +80,16 @@ func vcReadDBFile(path string) (vcState, bool) {
 	return vcState{lin: int(p[0].GetI()), p: [2]int{int(p[1].GetI()), int(p[2].GetI())}}, true
 }
 
+// nativeLiveState reads the abstraction through the node's own database handle.
+func (e *vcEnv) nativeLiveState() (vcState, bool) {
+	rows, err := e.s.db.QueryStringStmt("SELECT (SELECT v FROM lin), (SELECT v FROM t0), (SELECT v FROM t1)")
+	if err != nil || len(rows) != 1 || rows[0].GetError() != "" || len(rows[0].Values) != 1 || len(rows[0].Values[0].Parameters) != 3 {
+		return vcState{}, false
+	}
+	p := rows[0].Values[0].Parameters
+	return vcState{lin: int(p[0].GetI()), p: [2]int{int(p[1].GetI()), int(p[2].GetI())}}, true
+}
+
 func (e *vcEnv) nativeCreateDB(st vcState) {
 	vcMakeDBFile(e.dbPath, st)
 }
